@@ -15,6 +15,7 @@ READER = 'asefile::reader::AseReader::'
 PRIM_BYTES = {'byte': 1, 'word': 2, 'short': 2, 'dword': 4, 'long': 4}
 MAX_HEADER_VISITS = 3          # 0, 1, 2 iterations
 MAX_PATHS = 20000
+MAX_STEPS = 60000             # calls of the path walker per decoder body (the pinned tree and all 160 negative controls need < 2000)
 
 
 def _is_reader_ty(ty):
@@ -129,11 +130,19 @@ class Sched:
         """list of item-lists for non-error paths of body; items are events/decisions with terms over body's params"""
         if body.path in self.memo:
             return self.memo[body.path]
+        failed = getattr(self, 'failed', None)
+        if failed is None:
+            failed = self.failed = {}
+        if body.path in failed:
+            raise RuntimeError(failed[body.path])       # do not walk a body that blew the budget a second time
         if body.path in self.stack:
             raise RuntimeError('recursive decoder ' + body.path)
         self.stack.append(body.path)
         try:
             out = self._paths(body)
+        except RuntimeError as e:
+            failed[body.path] = str(e)
+            raise
         finally:
             self.stack.pop()
         self.memo[body.path] = out
@@ -219,9 +228,16 @@ class Sched:
                     return q.arg_terms(c)[0]
             return None
 
+        steps = [0]
+
         def go(bb, items, counts):
             if len(results) > MAX_PATHS:
                 raise RuntimeError('too many paths in ' + body.name)
+            steps[0] += 1
+            if steps[0] > MAX_STEPS:
+                # the enumeration must end whatever the code looks like (seed C15-m: a chunk pre-scan helper multiplied the partial
+                # paths of parse_frame without ever completing one): give up, the caller reports the decoder as not comparable
+                raise RuntimeError('path enumeration budget (%d steps) exceeded in %s' % (MAX_STEPS, body.name))
             while True:
                 if bb not in good:
                     return
